@@ -91,9 +91,11 @@ Allowed(st, ev) ==
          st.status[ev.s] = "cr" /\ ev.out = "ok"
     [] ev.e = "invoke" ->
          \* by-name invocation runs, exactly once, the function of that name in the
-         \* library of the current incarnation
+         \* library of the current incarnation; a name the library does not export aborts
+         \* (every time: a failed lookup leaves nothing behind) and nothing runs
          /\ st.status[ev.s] = "cr"
-         /\ ev.out = "ok" /\ ev.ranlib = st.lib[ev.s] /\ ev.ranfn = ev.name /\ ev.count = 1
+         /\ IF ev.name = "nope" THEN ev.out = "abort" /\ ev.count = 0
+            ELSE ev.out = "ok" /\ ev.ranlib = st.lib[ev.s] /\ ev.ranfn = ev.name /\ ev.count = 1
     [] ev.e = "fnaddr" ->
          \* the tainted address of a sandbox function is the backend's representation
          /\ st.status[ev.s] = "cr"
